@@ -106,8 +106,33 @@ def check_curve(g, verts=None, circle=False):
         errs.append(('eval-shape', evv.shape))
     else:
         for k, x in enumerate(A):
-            if np.max(np.abs(evv[:, k] - pt(g.eval(x)))) > 0:
+            if not np.max(np.abs(evv[:, k] - pt(g.eval(x)))) <= tol:
                 errs.append(('eval-vector-vs-scalar', float(x)))
+    # ... and for parameter arrays in EVERY order class: reversed, every cyclic rotation, interleaved, and for every ordered
+    # pair of pieces (i, j) an array that starts and ends on piece i with entries of piece j (interior and break points) between
+    AA = list(A)
+    orders = [('reversed', AA[::-1]), ('interleaved', AA[::2] + AA[1::2])] + [('rotation%d' % r, AA[r:] + AA[:r]) for r in range(1, len(AA))]
+    npc = len(g.pw_gamma)
+    inner = [[x for x in AA if g.pw_start[i] < x < g.pw_start[i + 1]] for i in range(npc)]
+    for i in range(npc):
+        for j in range(npc):
+            if i != j and len(inner[i]) >= 2 and inner[j]:
+                orders.append(('piece%d-piece%d-piece%d' % (i, j, i), [inner[i][0], g.pw_start[j], inner[j][0], g.pw_start[j + 1], inner[i][-1]]))
+                orders.append(('piece%d-piece%d-piece%d-descending' % (i, j, i), [inner[i][-1], inner[j][-1], inner[i][0]]))
+    for oname, arr in orders:
+        n += 1
+        try:
+            ev2 = np.asarray(g.eval(np.array(arr, dtype=float)))
+        except Exception as ex:
+            errs.append(('eval-array-raised', (oname, repr(ex))))
+            continue
+        if ev2.shape != (2, len(arr)):
+            errs.append(('eval-shape', (oname, ev2.shape)))
+            continue
+        for k, x in enumerate(arr):
+            if not any(np.max(np.abs(ev2[:, k] - pt(g.pw_gamma[i](x)))) <= tol for i in piece_index(g, x)):
+                errs.append(('eval-array-vs-containing-piece', (oname, float(x))))
+                break
     # arc length: |gamma(x)-gamma(y)| for every pair of alphabet points inside one piece
     for i in range(len(g.pw_gamma)):
         a, b = g.pw_start[i], g.pw_start[i + 1]
